@@ -26,7 +26,20 @@ def hex (s : String) : String :=
 def encName (s : String) : String :=
   if !s.isEmpty && s.toList.all (fun c => c.isAlphanum || c == '_') then s else "x" ++ hex s
 
-def fmtRat (q : Rat) : String := s!"{q.num}/{q.den}"
+/-- decimal digits of a natural number by divide and conquer (`toString` is quadratic, which
+takes minutes for numbers of a few hundred thousand digits) -/
+partial def natDec (n : Nat) : String :=
+  if n < 10 ^ 200 then toString n
+  else
+    -- about half of the decimal digits
+    let k := (Nat.log2 n) * 30103 / 200000
+    let p := 10 ^ k
+    let lo := natDec (n % p)
+    natDec (n / p) ++ String.ofList (List.replicate (k - lo.length) '0') ++ lo
+
+def intDec (i : Int) : String := if i < 0 then "-" ++ natDec i.natAbs else natDec i.natAbs
+
+def fmtRat (q : Rat) : String := s!"{intDec q.num}/{natDec q.den}"
 
 def fmtNumeric : Numeric → String
   | .rational q => fmtRat q
